@@ -4,7 +4,7 @@ import json, os, re
 rows = []
 for sid in sorted(os.listdir('/verif/seeded')):
     mp = f'/verif/seeded/{sid}/meta.json'
-    if not os.path.exists(mp) and sid != 'retired':
+    if not os.path.exists(mp):
         continue
     m = json.load(open(mp))
     cr = m.get('check_run', {})
